@@ -92,6 +92,8 @@ func runC01(c *Ctx, r *Report) {
 	}
 	r.Floor("C01-e/atomic", 7, "readLines, matchedLines, ignoredLines accesses")
 	c01Ignore(c, r)
+	// (g) every worker evaluates with its own matcher instance
+	borrow(c, r, c05MatcherPerWorker, "C05-e", "C01-g", nil, true)
 }
 
 // atomicAddTarget: atomic.AddUint64(&x.f, 1) -> field name.
